@@ -74,7 +74,8 @@ let show_state (ch: chan) : string =
 let svc_name = "c19.TestService"
 let svc_table = Some [ (bytes_of_text svc_name, [bytes_of_text "Echo"; bytes_of_text "Defer"]) ]
 let mk_call c r d meth req : call =
-  { c_tag = nat_of_int c; c_resp = (r = "1"); c_done = (d = "1"); c_svc = bytes_of_text svc_name;
+  { c_tag = nat_of_int c; c_resp = (r = "1"); c_done = (d = "1");
+    c_svc = bytes_of_text (if meth = "Ping" then "c19.OtherService" else svc_name);
     c_meth = bytes_of_text meth; c_req = req }
 (* obs=1 in the case header: the machine without the CallMethod precondition (C19_Model.step_code);
    otherwise C19_Model.step, which rejects a call made with response == NULL *)
@@ -93,7 +94,52 @@ let rec run_labels (s: chan) (ls: clabel list) : (chan * event list) option =
         (match run_labels s' (extra @ r) with
          | None -> None
          | Some (s'', ev') -> Some (s'', ev @ ev')))
+(* ---- two channels (C19_Sys): header sys=1 ---- *)
+let sys_wire (b: byte list) = b
+let sys_content (b: byte list) = Valid b
+let show_sys_event (e: event) : string option = match e with
+  | ESendRequest _ | ESendResponse _ -> None        (* consumed by the other channel, not seen by a peer *)
+  | _ -> show_event e
+let sys_state (y: sys) : string =
+  let o = List.map (fun (i, c) -> Printf.sprintf "%s:r%dd%d" (string_of_z i) (if c.c_resp then 1 else 0) (if c.c_done then 1 else 0)) y.cl.outs in
+  let p = List.sort compare (List.map (fun (k, _) -> int_of_nat k) y.sv.pending) in
+  Printf.sprintf "next=%s outs=%s pend=%s" (string_of_z y.cl.next_id) (join o) (join (List.map string_of_int p))
+let evs_of (st: sstep) : event list =
+  (match st.ss_cl with Some (_, ev) -> ev | None -> []) @ (match st.ss_sv with Some (_, ev) -> ev | None -> [])
+(* labels one after the other; a request dispatched to Echo is answered at once by the service *)
+let rec sys_run (y: sys) (ls: slabel list) : (sys * event list) option =
+  match ls with
+  | [] -> Some (y, [])
+  | l :: r ->
+    (match sys_step sys_wire sys_content y l with
+     | None -> None
+     | Some (y', st) ->
+        let ev = evs_of st in
+        let extra = List.concat (List.map (function
+          | EDispatch (k, _, _, meth, q) when text_of_bytes meth = "Echo" -> [SDone (k, q)]
+          | _ -> []) ev) in
+        (match sys_run y' (extra @ r) with
+         | None -> None
+         | Some (y'', ev') -> Some (y'', ev @ ev')))
+let rec sys_pump (y: sys) (server: bool) (acc: event list) : sys * event list =
+  if (if server then y.c2s else y.s2c) = [] then (y, acc)
+  else match sys_run y [if server then SReq else SResp] with
+       | Some (y', ev) -> sys_pump y' server (acc @ ev)
+       | None -> (y, acc)
+let sys_op (y: sys) (w: string list) : (sys * event list) option =
+  let callm c r d meth req = mk_call (int_of_string c) r d meth (bytes_of_spec req) in
+  match w with
+  | ["CALL"; c; r; d; meth; req] -> sys_run y (List.map (fun l -> SCall l) (call_labels O (callm c r d meth req)))
+  | ["F"; t; c; r; d; meth; req] -> sys_run y [SCall (LFetch (nat_of_int (int_of_string t), callm c r d meth req))]
+  | ["R"; t] -> sys_run y [SCall (LRegister (nat_of_int (int_of_string t)))]
+  | ["S"; t] -> sys_run y [SCall (LSend (nat_of_int (int_of_string t)))]
+  | ["DONE"; k; d] -> sys_run y [SDone (nat_of_int (int_of_string k), bytes_of_spec d)]
+  | ["PUMPS"] -> Some (sys_pump y true [])
+  | ["PUMPC"] -> Some (sys_pump y false [])
+  | _ -> None
+
 let () =
+  let sy : sys option ref = ref None in
   let st = ref (cinit false None) in
   let leaked = ref [] in
   (try while true do
@@ -104,10 +150,33 @@ let () =
         let svc = List.mem "svc=1" rest in
         let svc2 = List.mem "svc=2" rest in
         lax := List.mem "obs=1" rest;
+        sy := (if List.mem "sys=1" rest then Some (sys_init svc_table) else None);
         (* svc=1: made and owned by RpcServer::onConnection; svc=2: user-owned channel with the service table *)
         st := cinit svc (if svc || svc2 then svc_table else None);
         leaked := [];
-        Printf.printf "case %s services=%s\n" id (if svc || svc2 then svc_name ^ ":Echo+Defer" else "NULL"); flush stdout
+        Printf.printf "case %s services=%s\n" id (if !sy <> None then "SYS" else if svc || svc2 then svc_name ^ ":Echo+Defer" else "NULL"); flush stdout
+    | ["end"] when !sy <> None ->
+        let y = (match !sy with Some y -> y | None -> assert false) in
+        let fin = List.concat (List.map (fun (t, ts) -> match ts with
+            | TIdle -> [] | TFetched _ -> [SCall (LRegister t); SCall (LSend t)] | TRegistered _ -> [SCall (LSend t)]) y.cl.threads) in
+        let y = (match sys_run y fin with Some (y, _) -> y | None -> y) in
+        let dtor = List.sort compare (List.concat (List.map (fun (_, c) -> if c.c_done then [tag_label c.c_tag] else []) y.cl.outs)) in
+        Printf.printf "final dtor=%s leaked=- respleak=-\nend\n" (join dtor); flush stdout
+    | w when !sy <> None && wire_op w = None ->
+        let y = (match !sy with Some y -> y | None -> assert false) in
+        (match sys_op y w with
+         | None -> Printf.printf "rejected ev=- %s\n" (sys_state y)
+         | Some (y', ev) ->
+             sy := Some y';
+             (* the driver sees a deleted response object / a dropped closure when it scans its calls after the op:
+                those events come last, in the order the calls were made (= by tag) *)
+             let late = function EDelete _ | ELeak _ | EDrop _ -> true | _ -> false in
+             let tag_of = function EDelete c | ELeak c | EDrop c -> int_of_nat c | _ -> 0 in
+             let first = List.filter (fun e -> not (late e)) ev in
+             let last = List.stable_sort (fun a b -> compare (tag_of a) (tag_of b)) (List.filter late ev) in
+             let shown = List.concat (List.map (fun e -> match show_sys_event e with Some x -> [x] | None -> []) (first @ last)) in
+             Printf.printf "ok ev=%s %s\n" (join shown) (sys_state y'));
+        flush stdout
     | ["end"] ->
         (* parked helper threads are released and finish their calls; then ~RpcChannel deletes what is registered *)
         let fin = List.concat (List.map (fun (t, ts) -> match ts with
